@@ -38,6 +38,10 @@ def prim_pool(rng, names, thorough):
     pool.append(lambda pid: Prim("t", ["-type", "d"], lambda e: e["kind"] == "dir"))
     pool.append(lambda pid: Prim("t", ["-type", "f"], lambda e: e["kind"] == "file"))
     pool.append(lambda pid: Prim("t", ["-maxdepth", "50"], lambda e: True))
+    # the options of the grammar are primaries that are always true: each is one operand of the operators around it ("! -nowarn" is false)
+    for opt in (["-nowarn"], ["-warn"], ["-ignore_readdir_race"], ["-noignore_readdir_race"], ["-noleaf"], ["-mindepth", "0"], ["-follow"], ["-daystart"]):
+        if opt != ["-follow"]:      # (-follow changes which record the tests see; kept out of sentences whose truth values were computed without it)
+            pool.append(lambda pid, opt=opt: Prim("t", list(opt), lambda e: True))
     for _ in range(4):
         pool.append(lambda pid: Prim("a", ["-printf", "A%d:%%p\\n" % pid], lambda e: True, lambda p, pid=pid: b"A%d:" % pid + p + b"\n"))
     pool.append(lambda pid: Prim("a", ["-print"], lambda e: True, lambda p: p + b"\n"))
